@@ -1,7 +1,7 @@
 (* Properties_C12 — one active operation per session and an honest output-length protocol.
    Model: coq/Crypto/OpModel.v (machine arithmetic of the C++).  Statements only. *)
 From Coq Require Import List NArith Bool.
-From SoftHSM Require Import Gen_Const OpModel OpFacts.
+From SoftHSM Require Import Gen_Const OpModel OpFacts Gen_Ops OpIsCode.
 Import ListNotations.
 Local Open Scope N_scope.
 
@@ -78,3 +78,59 @@ Theorem C12_no_overwrite : forall (st : active) (c : call) (have : N),
   (r_rv (do_call st c) = CKR_OK -> r_written (do_call st c) = 0 \/ r_len (do_call st c) = Some (r_written (do_call st c))).
 Proof. exact no_overwrite. Qed.
 Print Assumptions C12_no_overwrite.
+
+(* ---- the model's update / final / single-part steps are the regenerated code (gen/Gen_Ops.v) ---- *)
+
+Theorem C12_enc_update_is_code : forall (o : symop) (len : N) (buf : obuf),
+  so_enc o = true ->
+  let r := sym_update o len buf in
+  SymEncryptUpdate.app (enc_update_env o len buf) = (r_rv r, eff_of r).
+Proof. exact enc_update_is_code. Qed.
+Print Assumptions C12_enc_update_is_code.
+
+Theorem C12_dec_update_is_code : forall (o : symop) (len : N) (buf : obuf),
+  so_enc o = false ->
+  let r := sym_update o len buf in
+  SymDecryptUpdate.app (dec_update_env o len buf) = (r_rv r, eff_of r).
+Proof. exact dec_update_is_code. Qed.
+Print Assumptions C12_dec_update_is_code.
+
+Theorem C12_enc_final_is_code : forall (o : symop) (buf : obuf),
+  so_enc o = true -> so_buf o + so_tag o + BS < M64 ->
+  let r := sym_final o buf in
+  SymEncryptFinal.app (enc_final_env o buf) = (r_rv r, eff_of r).
+Proof. exact enc_final_is_code. Qed.
+Print Assumptions C12_enc_final_is_code.
+
+Theorem C12_dec_final_is_code : forall (o : symop) (buf : obuf),
+  so_enc o = false -> so_buf o < M64 ->
+  let r := sym_final o buf in
+  SymDecryptFinal.app (dec_final_env o buf) = (r_rv r, eff_of r).
+Proof. exact dec_final_is_code. Qed.
+Print Assumptions C12_dec_final_is_code.
+
+Theorem C12_enc_single_is_code : forall (o : symop) (len : N) (buf : obuf),
+  so_enc o = true ->
+  let r := sym_single o len buf in
+  normr (SymEncrypt.app (enc_single_env o len buf)) = (r_rv r, eff_of r).
+Proof. exact enc_single_is_code. Qed.
+Print Assumptions C12_enc_single_is_code.
+
+Theorem C12_mac_final_is_code : forall (size : N) (buf : obuf),
+  let r := fixed_out size (AMac size) buf in
+  normr (MacSignFinal.app (mac_final_env size buf)) = (r_rv r, eff_of r).
+Proof. exact mac_final_is_code. Qed.
+Print Assumptions C12_mac_final_is_code.
+
+Theorem C12_mac_single_is_code : forall (size len : N) (buf : obuf),
+  let r := fixed_out size (AMac size) buf in
+  normr (MacSign.app (mac_single_env size len buf)) = (r_rv r, eff_of r).
+Proof. exact mac_single_is_code. Qed.
+Print Assumptions C12_mac_single_is_code.
+
+Theorem C12_enc_update_announced_length_suffices : forall (o : symop) (len have : N),
+  so_enc o = true ->
+  forall n, In (LEN, n) (snd (SymEncryptUpdate.app (enc_update_env o len None))) ->
+  fst (SymEncryptUpdate.app (enc_update_env o len (Some (N.max have n)))) <> CKR_BUFFER_TOO_SMALL.
+Proof. exact enc_update_announced_length_suffices. Qed.
+Print Assumptions C12_enc_update_announced_length_suffices.
